@@ -1,9 +1,20 @@
 """C14 Captured spans and text cover exactly the tokens consumed."""
 from .. import sexp, parsegen, spangen, lexsim, peg
 from .gbase import GProp, pfields, mk_case, run_result
+from . import C07 as c07mod
 
 def gen_wrapped(r):
-    k = r.below(14)
+    k = r.below(17)
+    if k == 14:
+        # the other members of the C07 family: count / until variants, separators
+        return c07mod.gen_rep(r, 1 + r.below(2))
+    if k >= 15:
+        # any member of the C06 family that leaves the token filter alone (with a temporary filter change inside the wrapped
+        # parser there is no single 'filtered stream' for the property to speak of)
+        while True:
+            g = parsegen.gen_c06(r, 2 + r.below(5))
+            if 'filterwith' not in sexp.dump(g) and 'unfiltered' not in sexp.dump(g):
+                return g
     if k == 12:
         # a sub-parse INSIDE the wrapped parser (sub is a member of the C06 family), consuming something or nothing
         inner = r.choice(['empty', ['maybe', ['one', 'B']], ['one', 'B'], ['repeat', 0, 'inf', ['one', 'C']], ['cond', 'F', ['one', 'A']]])
@@ -72,6 +83,7 @@ def same_capture(got, want):
 class C14(GProp):
     id = 'C14'
     files = ['tephra-combinator/src/misc.rs', 'tephra/src/lexer.rs']
+    assumptions = ['the wrapped parser does not change the token filter (with filter_with / unfiltered inside a capture there is no single filtered stream for the property to speak of: the capture starts at the first token of the OUTER stream and ends with the last token consumed under whichever filter)']
     rule = ('seeded random captures text(w) / spanned(w) with w from the C06/C07 family including nullable ones (maybe, repeat 0.., ' 'sub-parses inside w that consume something or nothing, '
             'empty, cond false, seq_count), nested in sequences so that tokens were consumed before the capture and follow after it, '
             'on random texts with filtered whitespace before, between and after the consumed tokens (incl. tabs, line breaks, '
